@@ -127,12 +127,20 @@ func init() {
 				if lit == nil {
 					return fmt.Errorf("QUICID2Spec case %s: no tls.TransportParameters literal", id.Name)
 				}
-				var items []string
+				var items, idItems []string
+				idConst := func(typeName string) string { // uTLS type name -> wire constant, by naming convention
+					c := strings.ToLower(typeName[:1]) + typeName[1:] + "ParameterID"
+					if _, _, _, ok := wirePkg.Const(c); ok {
+						return c
+					}
+					return ""
+				}
 				for _, e := range lit.Elts {
 					// a flag parameter: &tls.DisableActiveMigration{}
 					if ue, ok := e.(*ast.UnaryExpr); ok && ue.Op == token.AND {
 						if cl, ok := ue.X.(*ast.CompositeLit); ok && isTLSSel(cl.Type, "DisableActiveMigration") {
 							items = append(items, fmt.Sprintf("(%q, %d)", "DisableActiveMigration", 1))
+							idItems = append(idItems, "(disableActiveMigrationParameterID, 1)")
 						}
 						continue
 					}
@@ -149,9 +157,16 @@ func init() {
 						continue // not an integer-valued parameter (e.g. InitialSourceConnectionID([]byte{}))
 					}
 					items = append(items, fmt.Sprintf("(%q, %d)", sel.Sel.Name, v))
+					if c := idConst(sel.Sel.Name); c != "" {
+						idItems = append(idItems, fmt.Sprintf("(%s, %d)", c, v))
+					} else {
+						return fmt.Errorf("QUICID2Spec case %s: no wire parameter id constant for tls.%s", id.Name, sel.Sel.Name)
+					}
 				}
 				w.P("/-- u_parrot.go QUICID2Spec case %s: integer-valued transport parameters listed (uTLS type name, value), source order -/", id.Name)
 				w.P("def spec_%s : List (String × Int) := [%s]", id.Name, strings.Join(items, ", "))
+				w.P("/-- the same list as (parameter id, value); uTLS type name ↔ wire id constant by name -/")
+				w.P("def specParams_%s : List (Int × Int) := [%s]", id.Name, strings.Join(idItems, ", "))
 				w.P("/-- number of elements of that tls.TransportParameters literal (all kinds) -/")
 				w.P("def specLen_%s : Nat := %d", id.Name, len(lit.Elts))
 				names = append(names, id.Name)
@@ -162,6 +177,11 @@ func init() {
 			all = append(all, fmt.Sprintf("(%q, spec_%s, specLen_%s)", n, n, n))
 		}
 		w.P("def builtinSpecs : List (String × List (String × Int) × Nat) := [%s]", strings.Join(all, ", "))
+		var allP []string
+		for _, n := range names {
+			allP = append(allP, "specParams_"+n)
+		}
+		w.P("def builtinParamLists : List (List (Int × Int)) := [%s]", strings.Join(allP, ", "))
 		return nil
 	})
 }
